@@ -19,8 +19,9 @@ MkColl(kind, ctor, slots) == [kind |-> kind, ctor |-> ctor, items |-> SlotItems(
 Leaf(k)  == [k |-> k, ms |-> <<>>]
 Unit(ms) == [k |-> "O", ms |-> ms]
 
-Acc(pos, m) == [o |-> "acc", pos |-> pos, m |-> m]
-Call(api, c, key, rel, body) == [k |-> "call", api |-> api, c |-> c, key |-> key, rel |-> rel, body |-> body]
+\* body micro-operations and program items have uniform records (they travel through JSON)
+Acc(pos, m) == [o |-> "acc", pos |-> pos, m |-> m, name |-> "", c |-> 0]
+Call(api, c, key, rel, body) == [k |-> "call", api |-> api, c |-> c, key |-> key, rel |-> rel, body |-> body, name |-> ""]
 
 NoFaults == [k |-> "none"]
 
